@@ -21,11 +21,19 @@ use crate::spec::{self, pf};
 enum Op {
     SetNum(usize, u16),
     SetBase(usize, u16),
-    /// (desc, avail, used) offsets inside region 0, used index value pre-written by the guest
-    SetAddr(usize, u64, u64, u64, u16),
+    /// (desc, avail, used) offsets inside region k (last field), used index value pre-written
+    /// by the guest. The two regions are adjacent in the frontend's address space and far
+    /// apart in guest-physical space, so offset 0 of region 1 is the boundary case.
+    SetAddr(usize, u64, u64, u64, u16, usize),
+    /// SET_VRING_ADDR with the descriptor table (0), available ring (1) or used ring (2) on the
+    /// first byte after the last region: not translatable, must be refused
+    AddrOutside(usize, u8),
     GetBase(usize),
     Kick(usize),
     SetFeatures(u64),
+    /// RESET_DEVICE (false) or RESET_OWNER + SET_OWNER + SET_PROTOCOL_FEATURES (true), followed
+    /// by a fresh SET_FEATURES with an offered mask and re-enabling of the rings
+    Reset(bool, u64),
     SetCall(usize),
     SetKick(usize),
     ReplaceTable,
@@ -77,6 +85,8 @@ struct RingM {
     desc: u64,
     avail: u64,
     used: u64,
+    /// index of the region the rings live in
+    reg: usize,
     addr_table: u64,
     started: bool,
     call: Option<usize>,
@@ -100,7 +110,7 @@ fn run_v<V: VringT<GM<()>> + Clone + Send + Sync + 'static>(sim: &Sim, _cfg: &Ru
             offered |= VIRTIO_RING_F_EVENT_IDX;
         }
         offered |= t.lattice64() & 0x0000_ffff_0000_00ff;
-        let mut protos = pf::MQ | pf::BACKEND_REQ | pf::CONFIGURE_MEM_SLOTS | pf::CONFIG | pf::DEVICE_STATE;
+        let mut protos = pf::MQ | pf::BACKEND_REQ | pf::CONFIGURE_MEM_SLOTS | pf::CONFIG | pf::DEVICE_STATE | pf::RESET_DEVICE;
         for b in [pf::REPLY_ACK, pf::SHARED_OBJECT, pf::SHMEM] {
             if t.chance(1, 2) {
                 protos |= b;
@@ -110,7 +120,7 @@ fn run_v<V: VringT<GM<()>> + Clone + Send + Sync + 'static>(sim: &Sim, _cfg: &Ru
         let mut ops = Vec::new();
         for _ in 0..n {
             let r = t.draw(nrings as u64) as usize;
-            ops.push(match t.draw(18) {
+            ops.push(match t.draw(19) {
                 0 | 1 => Op::SetNum(r, gen_num(t)),
                 2 => Op::SetBase(r, t.lattice32() as u16),
                 3 | 4 => {
@@ -118,8 +128,9 @@ fn run_v<V: VringT<GM<()>> + Clone + Send + Sync + 'static>(sim: &Sim, _cfg: &Ru
                     let a = 0x1000 + t.draw(8) * 0x10;
                     // rings do not share their used ring
                     let u = 0x2000 + r as u64 * 0x6000 + t.draw(4) * 0x1000 + t.draw(4) * 4;
-                    Op::SetAddr(r, d, a, u, t.lattice32() as u16)
+                    Op::SetAddr(r, d, a, u, t.lattice32() as u16, t.draw(2) as usize)
                 }
+                17 => Op::AddrOutside(r, t.draw(3) as u8),
                 5 => Op::GetBase(r),
                 6 | 7 | 8 => Op::Kick(r),
                 9 => {
@@ -140,6 +151,14 @@ fn run_v<V: VringT<GM<()>> + Clone + Send + Sync + 'static>(sim: &Sim, _cfg: &Ru
                     let size = 1 + t.draw(64) as u32;
                     Op::Device(t.draw(7) as u8, t.draw((0x1000 - size) as u64) as u32, size)
                 }
+                16 => {
+                    let m = match t.draw(3) {
+                        0 => offered,
+                        1 => offered & !VIRTIO_RING_F_EVENT_IDX,
+                        _ => offered & t.raw(),
+                    };
+                    Op::Reset(t.chance(1, 2), m)
+                }
                 _ => Op::Kick(r),
             });
         }
@@ -157,7 +176,7 @@ fn run_v<V: VringT<GM<()>> + Clone + Send + Sync + 'static>(sim: &Sim, _cfg: &Ru
             num_queues: nrings,
             max_queue_size: max_q,
             features: offered,
-            protocol_features: pf::MQ | pf::BACKEND_REQ | pf::CONFIGURE_MEM_SLOTS | pf::REPLY_ACK | pf::SHARED_OBJECT | pf::SHMEM | pf::CONFIG | pf::DEVICE_STATE,
+            protocol_features: pf::MQ | pf::BACKEND_REQ | pf::CONFIGURE_MEM_SLOTS | pf::REPLY_ACK | pf::SHARED_OBJECT | pf::SHMEM | pf::CONFIG | pf::DEVICE_STATE | pf::RESET_DEVICE,
             queues_per_thread: vec![0b11],
             add_used_on_event: true,
             ..Default::default()
@@ -176,7 +195,7 @@ fn run_v<V: VringT<GM<()>> + Clone + Send + Sync + 'static>(sim: &Sim, _cfg: &Ru
             .map(|i| GRegion {
                 gpa: GPA0 + i * 0x100_0000,
                 size: REG_SIZE,
-                uva: UVA0 + gen * 0x1000_0000 + i * 0x100_0000,
+                uva: UVA0 + gen * 0x1000_0000 + i * REG_SIZE,
                 off: (1 + i) * PAGE,
                 file: pool.add((1 + i) * PAGE + REG_SIZE),
             })
@@ -194,6 +213,7 @@ fn run_v<V: VringT<GM<()>> + Clone + Send + Sync + 'static>(sim: &Sim, _cfg: &Ru
             desc: 0,
             avail: 0,
             used: 0,
+            reg: 0,
             addr_table: u64::MAX,
             started: false,
             call: None,
@@ -259,26 +279,50 @@ fn run_v<V: VringT<GM<()>> + Clone + Send + Sync + 'static>(sim: &Sim, _cfg: &Ru
                 }
                 m[*r].next_avail = *n;
             }
-            Op::SetAddr(r, d, a, u, used_idx) => {
+            Op::SetAddr(r, d, a, u, used_idx, k) => {
                 // the guest has written its used index before the address is installed
-                pool.write(&table[0], *u + 2, &used_idx.to_le_bytes());
+                pool.write(&table[*k], *u + 2, &used_idx.to_le_bytes());
                 let cd = VringConfigData {
                     queue_max_size: max_q as u16,
                     queue_size: m[*r].size,
                     flags: 0,
-                    desc_table_addr: table[0].uva + d,
-                    used_ring_addr: table[0].uva + u,
-                    avail_ring_addr: table[0].uva + a,
+                    desc_table_addr: table[*k].uva + d,
+                    used_ring_addr: table[*k].uva + u,
+                    avail_ring_addr: table[*k].uva + a,
                     log_addr: None,
                 };
                 if let Err(e) = vmm.fe.set_vring_addr(*r, &cd) {
                     viol("control_message_failed", "SET_VRING_ADDR".into(), format!("step {step} {op:?}: {e:?}"));
                 }
-                m[*r].desc = table[0].gpa + d;
-                m[*r].avail = table[0].gpa + a;
-                m[*r].used = table[0].gpa + u;
+                m[*r].desc = table[*k].gpa + d;
+                m[*r].avail = table[*k].gpa + a;
+                m[*r].used = table[*k].gpa + u;
+                m[*r].reg = *k;
                 m[*r].next_used = *used_idx;
                 m[*r].addr_table = table_gen;
+            }
+            Op::AddrOutside(r, which) => {
+                let end = table[1].uva + table[1].size;
+                let mut cd = VringConfigData {
+                    queue_max_size: max_q as u16,
+                    queue_size: m[*r].size,
+                    flags: 0,
+                    desc_table_addr: table[0].uva,
+                    used_ring_addr: table[0].uva + 0x2000,
+                    avail_ring_addr: table[0].uva + 0x1000,
+                    log_addr: None,
+                };
+                match which {
+                    0 => cd.desc_table_addr = end,
+                    1 => cd.avail_ring_addr = end,
+                    _ => cd.used_ring_addr = end,
+                }
+                let res = vmm.fe.set_vring_addr(*r, &cd);
+                if acks && res.is_ok() {
+                    viol("untranslatable_ring_address_accepted", String::new(), format!("step {step}: {op:?}: {end:#x} is the first byte after the last region but SET_VRING_ADDR succeeded"));
+                }
+                // refused: the ring keeps what it had; the daemon closes
+                dead = true;
             }
             Op::GetBase(r) => {
                 match vmm.fe.get_vring_base(*r) {
@@ -304,7 +348,23 @@ fn run_v<V: VringT<GM<()>> + Clone + Send + Sync + 'static>(sim: &Sim, _cfg: &Ru
                 callfds.push(fd);
                 m[*r].call = Some(callfds.len() - 1);
             }
-            Op::SetFeatures(mask) => {
+            Op::SetFeatures(mask) | Op::Reset(_, mask) => {
+                if let Op::Reset(owner, _) = op {
+                    // the reset forgets the negotiated features; what was configured on the
+                    // rings stays, and the SET_FEATURES below must reach queues and backend
+                    // exactly like the first one did
+                    let r = if *owner {
+                        vmm.fe
+                            .reset_owner()
+                            .and_then(|_| vmm.fe.set_owner())
+                            .and_then(|_| vmm.fe.set_protocol_features(VhostUserProtocolFeatures::from_bits_retain(protos)))
+                    } else {
+                        vmm.fe.reset_device()
+                    };
+                    if let Err(e) = r {
+                        viol("control_message_failed", "RESET".into(), format!("step {step} {op:?}: {e:?}"));
+                    }
+                }
                 let res = vmm.fe.set_features(*mask);
                 let subset = mask & !offered == 0;
                 if acks {
@@ -586,8 +646,8 @@ fn run_v<V: VringT<GM<()>> + Clone + Send + Sync + 'static>(sim: &Sim, _cfg: &Ru
                 // rings are the same in every generated table, so once addresses were installed
                 // the used ring lives in whatever table is the latest.
                 if mr.addr_table != u64::MAX {
-                    let off = mr.used - table[0].gpa;
-                    let idx = u16::from_le_bytes(pool.read(&table[0], off + 2, 2).try_into().unwrap());
+                    let off = mr.used - table[mr.reg].gpa;
+                    let idx = u16::from_le_bytes(pool.read(&table[mr.reg], off + 2, 2).try_into().unwrap());
                     if idx != mr.next_used.wrapping_add(1) {
                         viol("used_ring_not_in_latest_table", String::new(), format!("step {step}: used index in the latest table's file is {idx}, expected {}", mr.next_used.wrapping_add(1)));
                     }
